@@ -311,7 +311,8 @@ class HiddenTunnelCommunity(TunnelCommunity):
                     if pex.done:
                         self.pex.pop(info_hash, None)
                         if self.ipv8 is not None:
-                            self.ipv8.overlays.remove(pex)
+                            if pex in self.ipv8.overlays:  # IPv8.stop() has unregistered every overlay already.
+                                self.ipv8.overlays.remove(pex)
                             self.ipv8.strategies = [t for t in self.ipv8.strategies if t[0].overlay != pex]
                         self.register_anonymous_task("unload_pex", pex.unload)
 
